@@ -1988,12 +1988,18 @@ def proximal_huber(space, gamma):
             else:
                 norm = x.ufuncs.absolute()
 
-            mask = norm.ufuncs.less_equal(gamma + self.sigma)
-            out[mask] = gamma / (gamma + self.sigma) * x[mask]
+            # The two cases |x| <= gamma + sigma (scaling with
+            # gamma / (gamma + sigma)) and |x| > gamma + sigma (shrinkage
+            # x - sigma * x / |x|) are both a pointwise scaling of x with
+            # 1 - sigma / max(|x|, gamma + sigma)
+            factor = norm.ufuncs.maximum(gamma + self.sigma)
+            factor = 1 - self.sigma / factor
 
-            mask.ufuncs.logical_not(out=mask)
-            sign_x = x.ufuncs.sign()
-            out[mask] = x[mask] - self.sigma * sign_x[mask]
+            if isinstance(self.domain, ProductSpace):
+                for xi, out_i in zip(x, out):
+                    xi.multiply(factor, out=out_i)
+            else:
+                x.multiply(factor, out=out)
 
             return out
 
